@@ -19,7 +19,7 @@ const rule = "histories of 2-5 migration files after a fixed init file, each fil
 	"each Pos lies inside the statement (or rebuild group) of that table; exit status non-zero iff the window holds a destructive file. " +
 	"non-trivial = window with >=1 destructive file or >=1 rebuild; distinct key = (authoring routes, step kinds, N)"
 
-var tables = []string{"base", "other", "t3", "t4"}
+var tables = []string{"base", "other", "events", "t3", "events", "_meta", "news"} // incl. names made of the letters of the rebuild prefix new_
 var cols = []string{"a", "b", "c", "d", "g"}
 var kinds = []string{"add-table", "drop-table", "add-column", "drop-column", "add-virtual", "drop-virtual", "add-index", "drop-index", "rebuild-omit", "rebuild-keep", "temp-table", "temp-column", "drop-column", "add-column", "drop-readd-column", "drop-recreate-table", "rebuild-omit-virtual-and-later", "rebuild-omit-virtual-and-later", "add-column"}
 
